@@ -43,6 +43,17 @@ Theorem aad_injective_needs_nul_free_domain_refuted :
   exists i1 i2, i1 <> i2 /\ token_aad Cursor i1 = token_aad Cursor i2.
 Proof. exact nul_domain_refuted_lemma. Qed.
 
+(* identities are byte strings: no normalisation (letter case of the scheme name or of
+   the principal, blanks) may conflate two of them — e.g. ("SSO", p) and ("sso", p) *)
+Theorem identity_bytes_significant : forall k1 k2 d1 p1 d2 p2,
+  nul_free d1 = true -> nul_free d2 = true ->
+  token_aad k1 (Auth d1 p1) = token_aad k2 (Auth d2 p2) -> d1 = d2 /\ p1 = p2.
+Proof. exact identity_bytes_significant_lemma. Qed.
+
+Theorem domain_case_is_significant :
+  forall k1 k2 p, token_aad k1 (Auth (str "SSO") p) <> token_aad k2 (Auth (str "sso") p).
+Proof. exact case_variants_distinct_lemma. Qed.
+
 (* ---- 2. acceptance <-> same identity and same kind -------------------------- *)
 
 (* A token presented as it was minted.  Envelope (version byte) + AEAD alone decide:
